@@ -4,5 +4,5 @@ CONSTANTS
   DiscardedCallIsTail = FALSE
   Fuel = 8
   Universe = "wide"
-INVARIANTS RewriteSound UnrecognisedLeftAlone RecognisedIffTail LoweringFaithful FuelExact Emit
+INVARIANTS RewriteSound BackEndSound UnrecognisedLeftAlone RecognisedIffTail LoweringFaithful FuelExact Emit
 CHECK_DEADLOCK FALSE
